@@ -656,6 +656,42 @@ func registerModels(P *Program) {
 		return re.Match(bs)
 	}
 
+	ic["(*regexp.Regexp).MatchString"] = func(ex *Exec, th *Thread, caller *frame, fn *ssa.Function, args []Value) Value {
+		re := args[0].(*Pointer).obj.tag.(*regexp.Regexp)
+		s, ok := args[1].(string)
+		if !ok {
+			panic(abortPath{"regexp match on symbolic subject"})
+		}
+		return re.MatchString(s)
+	}
+	ic["regexp.MustCompile"] = func(ex *Exec, th *Thread, caller *frame, fn *ssa.Function, args []Value) Value {
+		s, ok := args[0].(string)
+		if !ok {
+			panic(abortPath{"regexp.MustCompile of symbolic pattern"})
+		}
+		re, err := regexp.Compile(s)
+		if err != nil {
+			panic(targetPanic{Iface{T: types.Typ[types.String], V: "regexp: Compile(" + strconv.Quote(s) + "): " + err.Error()}})
+		}
+		rt := fn.Signature.Results().At(0).Type().(*types.Pointer).Elem()
+		obj := ex.newObject(zero(rt), "regexp")
+		obj.tag = re
+		return &Pointer{obj: obj}
+	}
+	ic["regexp.MatchString"] = func(ex *Exec, th *Thread, caller *frame, fn *ssa.Function, args []Value) Value {
+		p, ok1 := args[0].(string)
+		s, ok2 := args[1].(string)
+		if !ok1 || !ok2 {
+			panic(abortPath{"regexp.MatchString on symbolic data"})
+		}
+		m, err := regexp.MatchString(p, s)
+		if err != nil {
+			e := ex.call(th, caller, ex.P.findFunc("errors", "New"), []Value{err.Error()})
+			return Tuple{false, e}
+		}
+		return Tuple{m, Iface{}}
+	}
+
 	// context: redirected to the Go-source model in the datalog overlay (vmodelWithTimeout)
 	ic["context.WithTimeout"] = func(ex *Exec, th *Thread, caller *frame, fn *ssa.Function, args []Value) Value {
 		m := ex.P.findFunc("github.com/biscuit-auth/biscuit-go/v2/datalog", "vmodelWithTimeout")
